@@ -12,7 +12,7 @@ META = {
                      "data2d": "up to 3x2 / 2x3 cells, <=3 points", "cameras": "0-3", "events": "0-3 events, 0-3 values"},
     },
     "outside_bounds": ["larger shapes", "+-inf in the gap-deciding component (the library treats it as a gap: outside 'valid')",
-                       "BTS camera records with fewer than 70 coefficients", "Data2D cells with zero points (decode to None)",
+                       "BTS camera records with fewer than 70 coefficients (precondition)", "the capture leg is concrete", "Data2D cells with zero points (decode to None)",
                        "byFrame formats (not implemented by the library)"],
     "assumptions": ["symnp model of numpy 1.26.4 (validated per run by witness replay on the real build)",
                     "Data2D camera map set through the private attribute, as the repository's own test does",
@@ -20,5 +20,35 @@ META = {
 }
 
 
+def capture_case(tier):
+    """every block of the BTS-recorded capture: nBytes == jump-table size == bytes consumed"""
+    def h(I):
+        from symtdf import symfile as SF
+        from . import blocks as B
+        from . import c06
+
+        with open(c06.CAPTURE, "rb") as fh:
+            raw = fh.read()
+        st = type("S", (), {"load_range": lambda self, a, n: list(raw[a:a + n]), "length": len(raw)})()
+        tab = SF.parse_table(st)
+        for e in tab["entries"]:
+            if e["type"] == 0:
+                continue
+            kind = c06.KIND_OF_TYPE.get(e["type"])
+            if kind is None or (kind == "data2d" and tier == "quick"):
+                continue
+            data = raw[e["offset"]:e["offset"] + e["size"]]
+            dec, pos = B.decode(I, kind, data + b"\xA5" * 7, e["format"])
+            I.observe(kind, [pos, dec.nBytes])
+            I.prove(f"C02.capture.{kind}.decode_consumes_exactly_the_jump_table_size", pos == e["size"], f"pos={pos} size={e['size']}")
+            I.prove(f"C02.capture.{kind}.nBytes_equals_jump_table_size", dec.nBytes == e["size"], f"nBytes={dec.nBytes} size={e['size']}")
+            again = B.encode(I, dec)
+            I.prove(f"C02.capture.{kind}.reencoded_length_equals_nBytes", len(again) == dec.nBytes)
+        I.goal("done")
+    return h
+
+
 def instances(tier):
-    return codec.instances_for("C02", tier)
+    from symtdf.runner import Instance
+
+    return codec.instances_for("C02", tier) + [Instance("capture", capture_case(tier), goals=["done"], cost=1000)]
